@@ -1,6 +1,7 @@
 package hmac
 
 import (
+	"github.com/tink-crypto/tink-go/v2/internal/verifh"
 	macsubtle "github.com/tink-crypto/tink-go/v2/mac/subtle"
 	stdhmac "crypto/hmac"
 	"crypto/sha1"
@@ -124,3 +125,27 @@ func VerifH_hmac_validate() {
 }
 
 func subtleValidate(h string, ks, ts uint32) error { return macsubtle.ValidateHMACParams(h, ks, ts) }
+
+func VerifH_c19_hmac() {
+	m, _, _, _, _, _ := build()
+	verifh.CheckMACNoWrite(m)
+}
+
+// Key objects share no memory with the caller: constructor inputs are cloned, accessors return clones.
+func VerifH_c19_hmackey() {
+	kb := verifrt.Bytes("key", 16)
+	params, _ := NewParameters(ParametersOpts{KeySizeInBytes: 16, TagSizeInBytes: 16, HashType: SHA256, Variant: VariantTink})
+	k, err := NewKey(secretdata.NewBytesFromData(kb, insecuresecretdataaccess.Token{}), params, verifrt.Uint32("id"))
+	verifrt.Assert(err == nil, "NewKey")
+	got := k.KeyBytes().Data(insecuresecretdataaccess.Token{})
+	verifrt.AssertEq(got, kb, "key bytes preserved")
+	verifrt.Assert(!verifrt.SameArray(got, kb), "key object does not retain the caller's slice")
+	verifrt.Assert(!verifrt.SameArray(got, k.KeyBytes().Data(insecuresecretdataaccess.Token{})), "KeyBytes().Data returns a fresh copy each time")
+	p1, p2 := k.OutputPrefix(), k.OutputPrefix()
+	verifrt.Assert(len(p1) == 5 && !verifrt.SameArray(p1, p2), "OutputPrefix returns a fresh copy each time")
+	p1[0] ^= 0xff
+	got[0] ^= 0xff
+	verifrt.AssertEq(k.OutputPrefix(), p2, "mutating a returned prefix does not change the key")
+	verifrt.AssertEq(k.KeyBytes().Data(insecuresecretdataaccess.Token{}), kb, "mutating returned key bytes does not change the key")
+	verifrt.Reach("end")
+}
